@@ -520,6 +520,8 @@ func runC08(c *fw.Ctx) {
 		func() gen.Stmt { return &gen.Save{Sent: &gen.SentValue{All: true, E: gen.As("USD")}, From: gen.A("a")} },
 		func() gen.Stmt { return &gen.Save{Sent: &gen.SentValue{E: gen.M("COIN", "5")}, From: gen.A("a")} },
 		func() gen.Stmt { return &gen.Save{Sent: fixed("-1"), From: gen.A("a")} },
+		func() gen.Stmt { return &gen.Save{Sent: fixed("-1"), From: gen.A("world")} },
+		func() gen.Stmt { return &gen.Save{Sent: fixed("3"), From: gen.A("world")} },
 		func() gen.Stmt { return &gen.Save{Sent: &gen.SentValue{E: gen.V("s")}, From: gen.A("a")} },
 		func() gen.Stmt { return &gen.Save{Sent: &gen.SentValue{E: gen.V("s")}, From: gen.A("c")} },
 		func() gen.Stmt {
@@ -554,7 +556,7 @@ func runC08(c *fw.Ctx) {
 			x := k
 			hasSave := false
 			for j := 0; j < l; j++ {
-				if x%na <= 8 {
+				if x%na <= 10 {
 					hasSave = true
 				}
 				x /= na
